@@ -81,6 +81,7 @@ def eworld (nb : Nat) (regs : List Reg) (ch : String) (clock step : Int) : World
   throw cls := throw cls
   rethrow := throw "reraise"
   catchAll body handler := tryCatch body (fun _ => handler)
+  catchCls cls body handler := tryCatch body (fun e => if e == cls then handler else throw e)
 
 @[simp] theorem throw_bind {α β : Type} (e : String) (f : α → M β) : ((throw e : M α) >>= f) = throw e := by
   apply StateT.ext; intro s; rfl
